@@ -188,7 +188,9 @@ theorem wf_writeAny {k k' : K} (h : WF k) {fd n : Nat} {bs : Bytes} (ho : writeA
   split at ho
   · split at ho
     · simp at ho
-    · exact wf_write h ho
+    · split at ho
+      · simp at ho
+      · exact wf_write h ho
   · exact wf_write h ho
 
 theorem wf_seekAny {k k' : K} (h : WF k) {fd : Nat} {w : Whence} {d : Int} {r : Option Nat}
@@ -279,6 +281,13 @@ theorem wf_setNonblock {k k' : K} (h : WF k) {fd : Nat} {b r : Bool} (ho : setNo
   · simp at ho
   · injection ho with h1 h2; subst h2; exact wf_updOfd h _ _
 
+theorem wf_fillPipe {k k' : K} (h : WF k) {fd : Nat} {u : Unit} (ho : fillPipe k fd = .ok u k') : WF k' := by
+  unfold fillPipe at ho
+  repeat' split at ho
+  all_goals first
+    | (simp at ho; done)
+    | (injection ho with h1 h2; subst h2; exact wf_tree (wf_updOfd h _ _) _)
+
 theorem wf_close {k : K} (h : WF k) (fd : Nat) : WF (close k fd) := by
   intro n x hx
   simp only [close, setFd] at hx
@@ -321,6 +330,8 @@ theorem wf_step (k : K) (op : Op) (h : WF k) : WF (step k op).1 := by
   case pipe => split; (rename_i hk; exact wf_pipe h hk); exact h
   case nb fd => split; (rename_i hk; exact wf_setNonblock h hk); exact h
   case rlim => exact h
+  case fill fd => split; (rename_i hk; exact wf_fillPipe h hk); exact h
+  case sel fd w => split <;> exact h
 
 /-- ★ In every state the driver can reach from a well-formed initial state, by any sequence of operations,
     every open descriptor is below the limit and resolves to an open file description: the hypotheses
